@@ -258,6 +258,7 @@ pub struct Cover {
     pub out_pending: u64,
     pub late_refs: u64,
     pub select_left_waker: u64,
+    pub drops_while_panicking: u64,
 }
 
 thread_local! {
